@@ -14,7 +14,7 @@
     Oracle: the property text on Go's output alone (Spec/GenShape.v). *)
 From Coq Require Import String ZArith NArith QArith Qabs Bool Arith List.
 From GT Require Import Base.Sexp Base.UTree Base.Codec Spec.Obs Spec.GenShape
-     Model.Reroot Model.Rand Model.Rand2 Model.TreeGen Judge.Common.
+     Model.Reroot Model.Rand Model.Rand2 Model.TreeGen Model.Index Judge.Common.
 Import ListNotations.
 Local Close Scope Q_scope.
 Local Open Scope string_scope.
@@ -115,6 +115,32 @@ Definition indexes_ready (g : utree) (o : sexp) : option string :=
       then Some "a branch bitset is missing or is not the set of tips below the branch"
       else None
   | _, _, _ => Some "index observation missing"
+  end.
+
+(** ** correspondence of the indexes: Go's tip index, tip ids and bitsets against the model of
+    ReinitIndexes (Model/Index.v [index_tables]) run on the MODEL tree *)
+Fixpoint true_positions (i : nat) (b : list bool) : list nat :=
+  match b with
+  | [] => []
+  | x :: r => (if x then [i] else []) ++ true_positions (S i) r
+  end.
+
+Definition index_corr (t : utree) (o : sexp) : option string :=
+  match index_tables t with
+  | Err m => Some ("model of ReinitIndexes refuses the tree: " ++ m)
+  | Ok tb =>
+    match get_strings "tipindex" o, (x <- get "tipidx" o ;; dec_list dec_tipidx x),
+          (x <- get "bits" o ;; dec_list dec_bits x), get_nats "bitlens" o with
+    | Some ti, Some tidx, Some bits, Some lens =>
+      if negb (list_eqb String.eqb ti (tb_names tb)) then Some "tip index names differ from the model's sorted tip names"
+      else if negb (list_eqb Z.eqb (map snd tidx) (map Z.of_nat (tb_tipids tb))) then Some "tip ids differ from the model's"
+      else if negb (list_eqb Nat.eqb lens (map (fun r => length (r_bits r)) (tb_rows tb))) then Some "bitset lengths differ from the model's"
+      else if negb (forallb fst bits &&
+                    list_eqb (list_eqb Nat.eqb) (map snd bits) (map (fun r => true_positions 0 (r_bits r)) (tb_rows tb)))
+      then Some "a bitset differs from the model's"
+      else None
+    | _, _, _, _ => Some "index observation missing"
+    end
   end.
 
 (** ** the oracle *)
@@ -225,10 +251,14 @@ Definition judge_gen (gen : string) (n : nat) (rooted : bool) (names : list stri
                  else if negb (utree_eqb t g) && negb (String.eqb gen "balanced" && negb rooted)
                       then VCorr ("model (lengths differ): " ++ show_utree t)
                  else if negb consumed_ok then VCorr "number of raw values consumed differs from the plan"
-                 else if negb (valid_size gen n rooted) then VOracle "a size below the documented minimum is accepted"
-                 else match oracle_tree gen n rooted names g o with
-                      | Some msg => VOracle msg
-                      | None => VOk true (gen ++ (if rooted then ":rooted" else ":unrooted"))
+                 else match index_corr t o with
+                      | Some msg => VCorr msg
+                      | None =>
+                        if negb (valid_size gen n rooted) then VOracle "a size below the documented minimum is accepted"
+                        else match oracle_tree gen n rooted names g o with
+                             | Some msg => VOracle msg
+                             | None => VOk true (gen ++ (if rooted then ":rooted" else ":unrooted"))
+                             end
                       end
                end
         end
@@ -264,11 +294,30 @@ Definition judge_topologies (n : nat) (rooted : bool) (names : list string) (o :
   | _, _ => VBad "undecodable observation"
   end.
 
+(** math/rand's own Intn / Float64 on a crafted stream (fake Source) against Model/Rand.v and
+    Model/Rand2.v: the rejection loop of Int31n and the retry of Float64 *)
+Definition judge_randlib (c o : sexp) : verdict :=
+  match (x <- get "rawin" c ;; dec_list dec_N x), get_nats "plan" c,
+        get_nats "ints" o, get_Qs "floats" o, get_nat "consumed" o with
+  | Some raw, Some plan, Some ints, Some floats, Some consumed =>
+    let pl := map (fun b => match b with O => DFloat | _ => DInt b end) plan in
+    match run_plan pl 0 raw with
+    | None => VBad "crafted stream too short for the model"
+    | Some (cs, fs, rest) =>
+      if negb (list_eqb Nat.eqb cs ints) then VCorr "rand.Intn results differ from Model/Rand.v"
+      else if negb (list_eqb qeqb (map fval fs) floats) then VCorr "rand.Float64 results differ from Model/Rand2.v"
+      else if negb (Nat.eqb consumed (length raw - length rest)) then VCorr "number of raw values consumed differs"
+      else VOk (negb (Nat.eqb consumed (length plan))) "randlib"
+    end
+  | _, _, _, _, _ => VBad "undecodable randlib case"
+  end.
+
 Definition judge (c o : sexp) : verdict :=
   match get_string "gen" c, get_nat "n" c, get_bool "rooted" c with
   | Some gen, Some n, Some rooted =>
     let names := match get_strings "names" c with Some l => l | None => [] end in
-    if String.eqb gen "topologies" then judge_topologies n rooted names o
+    if String.eqb gen "randlib" then judge_randlib c o
+    else if String.eqb gen "topologies" then judge_topologies n rooted names o
     else judge_gen gen n rooted names o
   | _, _, _ => VBad "undecodable case"
   end.
